@@ -175,14 +175,18 @@ ArgReg(a) == a.e.v.n
 (***************************************************************************)
 (* 1./2. The value analysis (pointer inference / function signatures)      *)
 (***************************************************************************)
-Bot == [live |-> FALSE, sp |-> 0, P |-> {}, C |-> {}, U |-> {}, O1 |-> {}, O2 |-> {}, G |-> {}, bad |-> {}]
+\* sp = the stack pointer's offset from the frame base; spok = FALSE: it differs between the paths to this node (then sp = 0)
+Bot == [live |-> FALSE, sp |-> 0, spok |-> TRUE, P |-> {}, C |-> {}, U |-> {}, O1 |-> {}, O2 |-> {}, G |-> {}, bad |-> {}]
 JoinAll(S) ==
   LET L == {s \in S : s.live} IN
   IF L = {} THEN Bot
-  ELSE LET s0 == CHOOSE s \in L : TRUE IN
-       [live |-> TRUE, sp |-> s0.sp, P |-> UNION {s.P : s \in L}, C |-> UNION {s.C : s \in L}, U |-> UNION {s.U : s \in L},
+  ELSE LET s0 == CHOOSE s \in L : TRUE
+           ok == \A s \in L : s.spok /\ s.sp = s0.sp
+       IN
+       [live |-> TRUE, sp |-> IF ok THEN s0.sp ELSE 0, spok |-> ok,
+        P |-> UNION {s.P : s \in L}, C |-> UNION {s.C : s \in L}, U |-> UNION {s.U : s \in L},
         O1 |-> UNION {s.O1 : s \in L}, O2 |-> UNION {s.O2 : s \in L}, G |-> UNION {s.G : s \in L},
-        bad |-> UNION {s.bad : s \in L} \cup (IF \E s \in L : s.sp # s0.sp THEN {"stack pointer differs at a join"} ELSE {})]
+        bad |-> UNION {s.bad : s \in L} \cup (IF ok THEN {} ELSE {"stack pointer differs at a join"})]
 ValOf(st, loc) == [ids |-> {q[2] : q \in {x \in st.P : x[1] = loc}}, c |-> loc \in st.C, u |-> loc \in st.U]
 SetLoc(st, loc, v) ==
   [st EXCEPT !.P = {q \in @ : q[1] # loc} \cup {<<loc, i>> : i \in v.ids},
@@ -234,7 +238,7 @@ NoAddr == [has |-> FALSE, v |-> TopVal]
 StepDef(C, sig, st, d) ==
   IF d.k = "assign" THEN
     IF d.v.n = C.sp THEN
-      IF IsSpOffset(C, d.e) THEN [st |-> [st EXCEPT !.sp = @ + SpDelta(d.e)], a |-> NoAddr]
+      IF IsSpOffset(C, d.e) THEN [st |-> [st EXCEPT !.sp = IF st.spok THEN @ + SpDelta(d.e) ELSE 0], a |-> NoAddr]
       ELSE [st |-> AddBad(st, {"stack pointer assigned something else than RSP + constant"}), a |-> NoAddr]
     ELSE LET r == Eval(C, st, d.e)
              s1 == AddBad(AddFlags(st, IF sig THEN FlagsOfRegs(C, st, InputVars(d.e), {"r"}) ELSE {}), r.bad)
@@ -275,7 +279,7 @@ RunDefs(C, sig, st, defs, i, acc) ==
 AfterCall(C, st) ==
   LET keep(loc) == loc.r = "" \/ loc.r \in C.saved IN
   [st EXCEPT !.P = {q \in @ : keep(q[1])}, !.C = {l \in @ : keep(l)}, !.U = {l \in @ : keep(l)},
-             !.sp = IF C.x86 THEN @ + 8 ELSE @]
+             !.sp = IF C.x86 /\ st.spok THEN @ + 8 ELSE @]
 ExtCall(C, sig, st, j) ==
   LET x == C.ext[j.t]
       pat == StubPat(x.name)
@@ -306,7 +310,7 @@ RetPi(C, st, sg, j) ==
       SetAll(s, rs) == IF rs = {} THEN s ELSE LET r == CHOOSE x \in rs : TRUE IN SetAll(SetLoc(s, Reg(r), retval(r)), rs \ {r})
       s1 == SetAll(base, others \cup {r1})
       s2 == IF newobj THEN [s1 EXCEPT !.O1 = @ \cup {j.tid}, !.O2 = IF j.tid \in st.O1 THEN @ \cup {j.tid} ELSE @] ELSE s1
-      b == (IF sg.sp # (IF C.x86 THEN 8 ELSE 0) THEN {"callee returns with an unexpected stack pointer"} ELSE {})
+      b == (IF ~sg.spok \/ sg.sp # (IF C.x86 THEN 8 ELSE 0) THEN {"callee returns with an unexpected stack pointer"} ELSE {})
            \cup (IF \E r \in others : heap(ValOf(sg, Reg(r))) # {} THEN {"callee returns a heap pointer in a second return register"} ELSE {})
   IN  AddBad(DropUnreferenced(s2), b)
 \* function signatures: return from the callee
@@ -318,14 +322,17 @@ RetSig(C, st, sg, j) ==
       SetAll(s, rs) == IF rs = {} THEN s ELSE LET r == CHOOSE x \in rs : TRUE IN SetAll(SetLoc(s, Reg(r), retval(r)), rs \ {r})
   IN  SetAll(AfterCall(C, s0), {C.rets[k].n : k \in DOMAIN C.rets})
 
-\* value an edge carries, given the current assignment F of states to the block nodes
+\* value an edge carries, given the current assignment F of states to the block nodes.  The class markers (`bad`) of
+\* a state say what THIS node's in-edges found; they are not handed on (some of them are not monotone in the values -
+\* "access through a value without targets" disappears when a target arrives - and would circulate in a loop for ever)
+NoBad(st) == [st EXCEPT !.bad = {}]
 EdgeVal(C, sig, F, e) ==
-  IF e.k = "Block" THEN (IF F[e.src].live THEN RunDefs(C, sig, F[e.src], BlkOfNode(C.P, e.src).defs, 1, {}).st ELSE Bot)
-  ELSE IF e.k = "Jump" THEN F[e.src]
-  ELSE IF e.k = "ExternCallStub" THEN (IF F[e.src].live THEN ExtCall(C, sig, F[e.src], C.jmp[e.jmp]) ELSE Bot)
+  IF e.k = "Block" THEN (IF F[e.src].live THEN RunDefs(C, sig, NoBad(F[e.src]), BlkOfNode(C.P, e.src).defs, 1, {}).st ELSE Bot)
+  ELSE IF e.k = "Jump" THEN NoBad(F[e.src])
+  ELSE IF e.k = "ExternCallStub" THEN (IF F[e.src].live THEN ExtCall(C, sig, NoBad(F[e.src]), C.jmp[e.jmp]) ELSE Bot)
   ELSE \* ReturnCombine: e.src is the CallReturn node (call block, returning block of the callee)
-    LET cs == F[EndNode(e.src.blk, e.src.sub)]
-        rs == F[EndNode(e.src.blk2, e.src.sub2)]
+    LET cs == NoBad(F[EndNode(e.src.blk, e.src.sub)])
+        rs == NoBad(F[EndNode(e.src.blk2, e.src.sub2)])
     IN  IF cs.live /\ rs.live THEN (IF sig THEN RetSig(C, cs, rs, C.jmp[e.jmp]) ELSE RetPi(C, cs, rs, C.jmp[e.jmp])) ELSE Bot
 \* least fixpoint by rounds: only the nodes that read a node changed in the last round are recomputed
 RECURSIVE Lfp(_, _, _, _, _)
